@@ -23,6 +23,23 @@ Fixpoint hrun (st : xstate) (ops : list hop) : list (mout * xstate) :=
   | o :: ops' => let '(st1, out) := hstep st o in (out, st1) :: hrun st1 ops'
   end.
 
+(* ---------- the xml:id index (Xot.id_nodes_map, src/xotdata.rs:53): filled by the parser for the document it returns,
+   never updated afterwards; Xot::xml_id_node (src/access.rs) looks the value up and drops an answer that has been removed ----------- *)
+Definition handle := (N * Z)%type.
+
+Definition handle_live (st : xstate) (h : handle) : bool :=
+  mem (fst h) (ids (store st)) && Z.eqb (stamp_of st (fst h)) (snd h).
+
+Definition xml_id_node (st : xstate) (index : list (str * handle)) (id : str) : option handle :=
+  match List.find (fun e => str_eqb (fst e) id) index with
+  | Some (_, h) => if handle_live st h then Some h else None
+  | None => None
+  end.
+
+(* what the harness observes after every call: the answer for every id of the index *)
+Definition xml_id_answers (st : xstate) (index : list (str * handle)) : list (option handle) :=
+  map (fun e => xml_id_node st index (fst e)) index.
+
 (* ---------- histories that also touch the interning tables (create_missing_prefixes registers prefixes) ---------- *)
 Inductive top :=
 | TH (o : hop)
@@ -46,7 +63,15 @@ Definition clone_with_prefixes (nm : nsnames) (st : xstate) (n : N) (order : lis
       match out with
       | MDone (Some c) =>
           if is_type st1 c TElement then
-            let to_add := filter (fun d => match map_get_node st1 KNs c (fst d) with Some _ => false | None => true end) inherited in
+            (* an element in no namespace does not get the inherited default namespace: it cannot declare one on itself *)
+            let no_ns_top := match val st1 c with
+                             | Some (VElement name) => N.eqb (ns_of_name nm name) (ns_no_ns nm)
+                             | _ => false
+                             end in
+            let to_add := filter (fun d => match map_get_node st1 KNs c (fst d) with
+                                           | Some _ => false
+                                           | None => negb (no_ns_top && N.eqb (fst d) (ns_empty_prefix nm))
+                                           end) inherited in
             if same_set (map fst to_add) order then
               (fold_left (fun s p => match assoc_p p to_add with
                                      | Some ns => map_insert s KNs c (VNamespace p ns)
